@@ -5,6 +5,7 @@ import ast
 import re
 
 from vk import astx, elect, facts, effects
+from vk.report import shape_rule
 from vk.algebra import Normalizer, bool_key, simplify, spec_guard, equivalent, atoms_of
 from vk.loader import AnalysisError
 
@@ -388,6 +389,7 @@ def _comp_over_states(q):
     return None, None
 
 
+@shape_rule
 def r6_ranges(ctx):
     prog = ctx.prog
     base = prog.find_class("Election")
